@@ -54,9 +54,10 @@ VARIABLES
   outc,       \* process -> [exit, reply, busy] once known
   rd,         \* reader -> [inode, nl, seen, err]
   now, crashes,
+  torn,       \* did some process die INSIDE a write(2) (history)
   acks,       \* sequence of [proc, exit] in order of termination (history)
   sched       \* witness schedule (history; hidden from VIEW)
-vars == <<scn, inodes, cur, tmp, lock, lockfile, pc, sec, snap, pend, outc, rd, now, crashes, acks, sched>>
+vars == <<scn, inodes, cur, tmp, lock, lockfile, pc, sec, snap, pend, outc, rd, now, crashes, torn, acks, sched>>
 
 Procs   == DOMAIN scn.cmds
 Readers == scn.readers
@@ -135,7 +136,7 @@ Begin(p) ==
        THEN pc' = [pc EXCEPT ![p] = IF lockfile THEN "flock" ELSE "mklock"] /\ UNCHANGED <<scn, outc, acks>>
        ELSE Terminate(p, 1, FALSE)
   /\ Note(p, "step")
-  /\ UNCHANGED <<scn, inodes, cur, tmp, lock, lockfile, sec, snap, pend, rd, now, crashes>>
+  /\ UNCHANGED <<scn, inodes, cur, tmp, lock, lockfile, sec, snap, pend, rd, now, crashes, torn>>
 
 \* the lock file was missing when the process looked: create it (an existing
 \* file is truncated, not replaced: every process ends up flocking one inode)
@@ -144,7 +145,7 @@ MkLock(p) ==
   /\ lockfile' = TRUE
   /\ pc' = [pc EXCEPT ![p] = "flock"]
   /\ Note(p, "step")
-  /\ UNCHANGED <<scn, inodes, cur, tmp, lock, sec, snap, pend, outc, rd, now, crashes, acks>>
+  /\ UNCHANGED <<scn, inodes, cur, tmp, lock, sec, snap, pend, outc, rd, now, crashes, torn, acks>>
 
 TryLock(p) ==
   /\ pc[p] = "flock"
@@ -152,21 +153,26 @@ TryLock(p) ==
        THEN lock' = p /\ pc' = [pc EXCEPT ![p] = "acquired"] /\ UNCHANGED <<scn, outc, acks>>
        ELSE lock' = lock /\ Terminate(p, 1, TRUE)
   /\ Note(p, "step")
-  /\ UNCHANGED <<scn, inodes, cur, tmp, sec, snap, pend, rd, now, crashes, lockfile>>
+  /\ UNCHANGED <<scn, inodes, cur, tmp, sec, snap, pend, rd, now, crashes, torn, lockfile>>
 
 ReadLog(p) ==
   /\ pc[p] = "acquired"
   /\ snap' = [snap EXCEPT ![p] = [log |-> ReadEvents(File), bad |-> HasGarbage(File)]]
   /\ pc' = [pc EXCEPT ![p] = "scanned"]
   /\ Note(p, "step")
-  /\ UNCHANGED <<scn, inodes, cur, tmp, lock, lockfile, sec, pend, outc, rd, now, crashes, acks>>
+  /\ UNCHANGED <<scn, inodes, cur, tmp, lock, lockfile, sec, pend, outc, rd, now, crashes, torn, acks>>
 
 Decide(p) ==
   /\ pc[p] = "scanned"
   /\ LET c == CmdOf[p]
          created == outc[p].reply.id
          d == DecideSecOf(c, sec[p], snap[p].log, now, created)
-         atomicBatch == "D9" \notin Dev /\ Len(d.events) > 1
+         \* how the events reach the file: one write(2) per event (D9), or one
+         \* write(2) for the whole batch; after a torn tail the log is rewritten
+         \* through the atomic-replace path instead (unless D8)
+         batches == IF "D9" \in Dev THEN [k \in 1..Len(d.events) |-> <<d.events[k]>>]
+                    ELSE IF d.events = <<>> THEN <<>> ELSE <<d.events>>
+         repair == "D8" \notin Dev /\ File.tail # "clean" /\ d.events # <<>>
      IN
      /\ now' = now + 4
      /\ IF snap[p].bad \/ ~d.ok
@@ -177,33 +183,34 @@ Decide(p) ==
                               IF d.reply.id # "" \/ d.reply.status # "" \/ d.reply.kind # "" THEN d.reply
                               ELSE IF SecsOf(c)[sec[p]].k = "create" THEN [Reply0 EXCEPT !.id = NewId(c, 1)]
                               ELSE @]]
-               /\ IF d.rewrite \/ atomicBatch
-                    THEN /\ pend' = [pend EXCEPT ![p] = IF d.rewrite THEN d.newlog ELSE snap[p].log \o d.events]
+               /\ IF d.rewrite \/ repair
+                    THEN /\ pend' = [pend EXCEPT ![p] = <<IF d.rewrite THEN d.newlog ELSE snap[p].log \o d.events>>]
                          /\ pc' = [pc EXCEPT ![p] = "tmp"]
-                    ELSE /\ pend' = [pend EXCEPT ![p] = d.events]
-                         /\ pc' = [pc EXCEPT ![p] = IF d.events = <<>> THEN "releasing" ELSE "append"]
+                    ELSE /\ pend' = [pend EXCEPT ![p] = batches]
+                         /\ pc' = [pc EXCEPT ![p] = IF batches = <<>> THEN "releasing" ELSE "append"]
   /\ Note(p, "step")
-  /\ UNCHANGED <<scn, inodes, cur, tmp, lock, lockfile, sec, snap, rd, crashes, acks>>
+  /\ UNCHANGED <<scn, inodes, cur, tmp, lock, lockfile, sec, snap, rd, crashes, torn, acks>>
 
-\* one write(2): the whole line arrives (death inside it is Crash)
+\* one write(2): the whole batch arrives (death inside it is Crash)
 AppendLine(p) ==
   /\ pc[p] = "append"
   /\ LET f == File
-         ev == Head(pend[p])
-         line == IF f.tail = "clean" \/ "D8" \notin Dev THEN ev ELSE Garbage
-         kept == IF f.tail = "full" /\ "D8" \in Dev THEN SubSeq(f.lines, 1, Len(f.lines) - 1) ELSE f.lines
-     IN inodes' = [inodes EXCEPT ![cur] = Content(Append(kept, line), "clean")]
+         batch == Head(pend[p])
+         glue == f.tail # "clean" /\ "D8" \in Dev
+         lines == IF glue THEN <<Garbage>> \o Tail(batch) ELSE batch
+         kept == IF f.tail = "full" /\ glue THEN SubSeq(f.lines, 1, Len(f.lines) - 1) ELSE f.lines
+     IN inodes' = [inodes EXCEPT ![cur] = Content(kept \o lines, "clean")]
   /\ pend' = [pend EXCEPT ![p] = Tail(@)]
   /\ pc' = [pc EXCEPT ![p] = IF Len(pend[p]) = 1 THEN "releasing" ELSE "append"]
   /\ Note(p, "step")
-  /\ UNCHANGED <<scn, cur, tmp, lock, lockfile, sec, snap, outc, rd, now, crashes, acks>>
+  /\ UNCHANGED <<scn, cur, tmp, lock, lockfile, sec, snap, outc, rd, now, crashes, torn, acks>>
 
 WriteTmp(p) ==
   /\ pc[p] = "tmp"
-  /\ tmp' = Content(pend[p], "clean")
+  /\ tmp' = Content(Head(pend[p]), "clean")
   /\ pc' = [pc EXCEPT ![p] = "rename"]
   /\ Note(p, "step")
-  /\ UNCHANGED <<scn, inodes, cur, lock, lockfile, sec, snap, pend, outc, rd, now, crashes, acks>>
+  /\ UNCHANGED <<scn, inodes, cur, lock, lockfile, sec, snap, pend, outc, rd, now, crashes, torn, acks>>
 
 Rename(p) ==
   /\ pc[p] = "rename"
@@ -214,14 +221,14 @@ Rename(p) ==
   /\ pend' = [pend EXCEPT ![p] = <<>>]
   /\ pc' = [pc EXCEPT ![p] = "releasing"]
   /\ Note(p, "step")
-  /\ UNCHANGED <<scn, lock, lockfile, sec, snap, outc, rd, now, crashes, acks>>
+  /\ UNCHANGED <<scn, lock, lockfile, sec, snap, outc, rd, now, crashes, torn, acks>>
 
 Unlock(p) ==
   /\ pc[p] = "releasing"
   /\ lock' = ""
   /\ pc' = [pc EXCEPT ![p] = "released"]
   /\ Note(p, "step")
-  /\ UNCHANGED <<scn, inodes, cur, tmp, sec, snap, pend, outc, rd, now, crashes, acks, lockfile>>
+  /\ UNCHANGED <<scn, inodes, cur, tmp, sec, snap, pend, outc, rd, now, crashes, torn, acks, lockfile>>
 
 NextSection(p) ==
   /\ pc[p] = "released"
@@ -233,7 +240,7 @@ NextSection(p) ==
               /\ UNCHANGED <<scn, outc, acks>>
          ELSE Terminate(p, 0, FALSE) /\ UNCHANGED sec
   /\ Note(p, "step")
-  /\ UNCHANGED <<scn, inodes, cur, tmp, lock, lockfile, snap, pend, rd, now, crashes>>
+  /\ UNCHANGED <<scn, inodes, cur, tmp, lock, lockfile, snap, pend, rd, now, crashes, torn>>
 
 \* process death at the current parking point; `how` says what a death inside
 \* write(2) left behind
@@ -243,14 +250,17 @@ Crash(p, how) ==
   /\ how \in (IF pc[p] = "append" THEN {"between", "partial", "full"}
               ELSE IF pc[p] = "tmp" THEN {"between", "partial"} ELSE {"between"})
   /\ crashes' = crashes + 1
+  /\ torn' = (torn \/ how # "between")
   /\ lock' = IF lock = p THEN "" ELSE lock
   /\ IF pc[p] = "append" /\ how # "between"
        THEN LET f == File
+                batch == Head(pend[p])
                 glued == f.tail # "clean" /\ "D8" \in Dev
-            IN inodes' = [inodes EXCEPT ![cur] =
-                 IF glued THEN f     \* (a fragment glued onto a fragment: still one torn tail)
-                 ELSE IF how = "partial" THEN Content(f.lines, "partial")
-                 ELSE Content(Append(f.lines, Head(pend[p])), "full")]
+            IN \E k \in 0..(Len(batch) - 1) :      \* k whole lines of the batch arrived before death
+                 inodes' = [inodes EXCEPT ![cur] =
+                   IF glued THEN f     \* (a fragment glued onto a fragment: still one torn tail)
+                   ELSE IF how = "partial" THEN Content(f.lines \o SubSeq(batch, 1, k), "partial")
+                   ELSE Content(f.lines \o SubSeq(batch, 1, k + 1), "full")]
        ELSE inodes' = inodes
   /\ tmp' = IF pc[p] = "tmp" /\ how = "partial" THEN Content(<<>>, "partial") ELSE tmp
   /\ pc' = [pc EXCEPT ![p] = "exit"]
@@ -266,14 +276,14 @@ ROpen(r) ==
   /\ rd' = [rd EXCEPT ![r] = [@ EXCEPT !.inode = cur]]
   /\ pc' = [pc EXCEPT ![r] = "opened"]
   /\ Note(r, "step")
-  /\ UNCHANGED <<scn, inodes, cur, tmp, lock, lockfile, sec, snap, pend, outc, now, crashes, acks>>
+  /\ UNCHANGED <<scn, inodes, cur, tmp, lock, lockfile, sec, snap, pend, outc, now, crashes, torn, acks>>
 
 RProbe(r) ==
   /\ pc[r] = "opened"
   /\ rd' = [rd EXCEPT ![r] = [@ EXCEPT !.nl = inodes[rd[r].inode].tail = "clean"]]
   /\ pc' = [pc EXCEPT ![r] = "probed"]
   /\ Note(r, "step")
-  /\ UNCHANGED <<scn, inodes, cur, tmp, lock, lockfile, sec, snap, pend, outc, now, crashes, acks>>
+  /\ UNCHANGED <<scn, inodes, cur, tmp, lock, lockfile, sec, snap, pend, outc, now, crashes, torn, acks>>
 
 RScan(r) ==
   /\ pc[r] = "probed"
@@ -284,7 +294,7 @@ RScan(r) ==
   /\ pc' = [pc EXCEPT ![r] = "exit"]
   /\ outc' = [outc EXCEPT ![r] = [exit |-> 0, busy |-> FALSE, reply |-> Reply0]]
   /\ Note(r, "step")
-  /\ UNCHANGED <<scn, inodes, cur, tmp, lock, lockfile, sec, snap, pend, now, crashes, acks>>
+  /\ UNCHANGED <<scn, inodes, cur, tmp, lock, lockfile, sec, snap, pend, now, crashes, torn, acks>>
 
 WStep(p) == Begin(p) \/ MkLock(p) \/ TryLock(p) \/ ReadLog(p) \/ Decide(p) \/ AppendLine(p) \/ WriteTmp(p)
             \/ Rename(p) \/ Unlock(p) \/ NextSection(p)
@@ -299,7 +309,7 @@ Init ==
   /\ pend = [p \in Procs |-> <<>>]
   /\ outc = [p \in Procs \cup Readers |-> [exit |-> -1, busy |-> FALSE, reply |-> Reply0]]
   /\ rd = [r \in Readers |-> [inode |-> 0, nl |-> TRUE, seen |-> <<>>, err |-> FALSE]]
-  /\ now = Len(InitLog) + 10 /\ crashes = 0 /\ acks = <<>> /\ sched = <<>>
+  /\ now = Len(InitLog) + 10 /\ crashes = 0 /\ torn = FALSE /\ acks = <<>> /\ sched = <<>>
 
 Next == \/ \E p \in Procs : WStep(p)
         \/ \E p \in Procs : \E how \in {"between", "partial", "full"} : Crash(p, how)
@@ -331,7 +341,7 @@ NeverBricked == ~HasGarbage(File)
 \* C03: what every acknowledged command wrote is still there
 \* C04: a killed multi-event command is all-or-nothing (checked at quiescence)
 AllOrNothing ==
-  (Quiescent /\ crashes > 0 /\ Cardinality(Procs) = 1) =>
+  (Quiescent /\ crashes > 0 /\ ~torn /\ Cardinality(Procs) = 1) =>
      LET p == CHOOSE x \in Procs : TRUE
          after == CHOOSE x \in Outcomes(InitLog, 100, CmdOf[p]) : TRUE
          got == NoTime(View(Replay(ReadEvents(File))))
@@ -343,7 +353,7 @@ NeverWaits == TRUE   \* structural: TryLock has no waiting state
 (***************************************************************************)
 (* VIEW and emission.                                                      *)
 (***************************************************************************)
-PView == <<scn.name, inodes, cur, tmp, lock, lockfile, pc, sec, snap, pend, outc, rd, crashes>>
+PView == <<scn.name, inodes, cur, tmp, lock, lockfile, pc, sec, snap, pend, outc, rd, crashes, torn>>
 
 Enabled(p) == IF p \in Readers THEN pc[p] # "exit" ELSE pc[p] # "exit"
 KillsAt(p) == IF p \in Procs /\ crashes < MaxCrashes /\ pc[p] \notin {"exit", "start"}
